@@ -210,6 +210,35 @@ func c13(c *core.Ctx) {
 				}
 			}
 			c.Check(credErr, key+":cred-error-returned", grm.Pos(), "an error from the credential is returned", "an error from GetRequestMetadata is not returned to the caller")
+			// ... on EVERY path: after the credential was asked, a return that may report success is dominated by the
+			// nil edge of the credential's error (an early "nothing to add" return placed before the error test lets the
+			// call go out without the credential)
+			okEvery := true
+			var where token.Pos
+			// paths from the credential call that never take the "err == nil" edge
+			noNilEdge := core.Walk(core.After(grm), nil, func(b *ssa.BasicBlock, si int) bool {
+				iff, ok := b.Instrs[len(b.Instrs)-1].(*ssa.If)
+				if !ok {
+					return true
+				}
+				f := core.CondFact(iff.Cond, si == 0)
+				if f.Op == token.EQL && core.IsNilConst(f.Y) {
+					if cr, idx, ok := core.CallResult(f.X); ok && cr == grm && idx == 1 {
+						return false
+					}
+				}
+				return true
+			})
+			for _, r := range core.Returns(apply) {
+				if !noNilEdge[r] || core.ClassifyErr(r.Results[1], r) == core.ErrNonNil {
+					continue
+				}
+				okEvery, where = false, r.Pos()
+			}
+			if !where.IsValid() {
+				where = grm.Pos()
+			}
+			c.Check(okEvery, key+":no-success-before-cred-error-test", where, "every possibly-successful return after GetRequestMetadata is on the nil edge of its error", "a return that reports success is reachable after GetRequestMetadata without its error having been found nil: a failing credential does not fail the call, which goes out without the credential's metadata")
 		}
 		c.EndRule()
 	}
@@ -460,6 +489,35 @@ func c13(c *core.Ctx) {
 						}
 					}
 				}
+			})
+			// the address: url.Host as it is (plus a default port), or net.JoinHostPort — never Hostname() glued to a
+			// port with ":" (Hostname strips the brackets of an IPv6 literal)
+			core.Instrs(getPeer, func(in ssa.Instruction) {
+				st, ok := in.(*ssa.Store)
+				if !ok {
+					return
+				}
+				if _, f, isF := core.FieldOf(st.Addr); !isF || f != "Addr" {
+					return
+				}
+				bad := false
+				for _, o := range core.Origins(st.Val) {
+					parts, _ := core.StringParts(core.Strip(o))
+					if len(parts) < 2 {
+						continue
+					}
+					for _, pt := range parts {
+						if pt.IsConst {
+							continue
+						}
+						for _, po := range core.Origins(pt.Val) {
+							if pc, _, isCall := core.CallResult(po); isCall && core.InfoOf(&pc.Call).Is("net/url.URL.Hostname") {
+								bad = true
+							}
+						}
+					}
+				}
+				c.Check(!bad, core.FuncName(getPeer)+":addr-keeps-ipv6-brackets", st.Pos(), "the address is not assembled from Hostname() by concatenation", "the peer address is assembled by concatenating url.Hostname() with a port: Hostname() strips the brackets of an IPv6 literal, so the address of http://[2001:db8::1]:8080 becomes 2001:db8::1:8080 (net.JoinHostPort, or url.Host as it is, keeps them)")
 			})
 			c.Check(okAuth, core.FuncName(getPeer)+":authinfo", getPeer.Pos(), "AuthInfo set on the tls != nil edge", "AuthInfo is not set from the TLS state on exactly the tls != nil edge (missing, or subject to a further condition)")
 		}
